@@ -475,6 +475,9 @@ def run(cx, rep):
                    "%s passes the expression of another module's `export default` on together with a file / anchor that does not come from the export record: the expression is then typed with the IMPORTING module's bindings" % f.id,
                    "%s:%s" % (f.file, c["line"]), sample={"fn": f.id, "call": c.get("method") or c.get("callee")})
     rep.floor("C09.8", "hand-overs of a default-export expression", n_de, 1)
+    # ---------------------------------------------------------------- C09.14
+    rep.rule("C09.14", "in type position a local type declaration wins over an imported name")
+    local_type_before_import_rule(cx, rep, "C09.14")
     # ---------------------------------------------------------------- C09.13
     rep.rule("C09.13", "syntax taken out of a located record is interpreted with that record's location")
     payload_file_rule(cx, rep, "C09.13")
@@ -630,24 +633,42 @@ def import_type_scope_rule(cx, rep, rid):
                 if r["k"] == "Field" and re.match(r"^std::vec::Vec<\(std::string::String, ", r.get("ty") or ""):
                     searchers.add(g)
     SYNTAX = re.compile(r"\b(TsTypeParamInstantiation|TsType)\b")
+    # wrappers of resolve_import: local functions that hand the resolved file back (`resolve_import_type_specifier(..)?`)
+    resolvers = set()
+    for _ in range(2):
+        for g2, t2 in F.hir.items():
+            f2 = F.fns.get(g2)
+            if f2 is None or g2 in resolvers or "BffFileName" not in (f2.output or "") or f2.kind == "Closure":
+                continue
+            for x in rwalk(t2["body"]):
+                if x["k"] in ("Call", "MethodCall"):
+                    cal = (x.get("resolved") or x.get("callee") or x.get("method") or "")
+                    if cal.endswith("resolve_import") or F._callee_gid(f2.crate, cal) in resolvers:
+                        resolvers.add(g2)
+                        break
+
+    def resolves(i, crate):
+        """the expression is (a `?` / combinator around) a call of resolve_import or of a wrapper of it"""
+        for x in rwalk(i):
+            if x["k"] in ("Call", "MethodCall"):
+                cal = (x.get("resolved") or x.get("callee") or x.get("method") or "")
+                if cal.endswith("resolve_import") or F._callee_gid(crate, cal) in resolvers:
+                    return True
+        return False
     n = 0
     for g in sorted(F.hir):
         f = F.fns.get(g)
         tree = F.hir[g]
-        if f is None or not any("TsImportType" in (p.get("ty") or "") for p in tree.get("params", []) if isinstance(p, dict)):
+        if f is None or g in resolvers or not any("TsImportType" in (p.get("ty") or "") for p in tree.get("params", []) if isinstance(p, dict)):
             continue
         n += 1
         foreign = set()
         for x in rwalk(tree["body"]):
             if x["k"] in ("Let", "LetStmt") and x.get("init") is not None:
-                i = x["init"]
-                cal = (i.get("resolved") or i.get("callee") or i.get("method") or "")
-                if i["k"] in ("MethodCall", "Call") and cal.endswith("resolve_import"):
+                if resolves(x["init"], f.crate):
                     foreign |= {y.get("lid") for y in rwalk(x["pat"]) if y["k"] == "P.Binding"}
-            if x["k"] == "Match" and x.get("scrut") is not None:
-                i = x["scrut"]
-                cal = (i.get("resolved") or i.get("callee") or i.get("method") or "")
-                if i["k"] in ("MethodCall", "Call") and cal.endswith("resolve_import"):
+            if x["k"] == "Match" and x.get("scrut") is not None and x.get("src") == "Normal":
+                if resolves(x["scrut"], f.crate):
                     for arm in x.get("arms", []):
                         foreign |= {y.get("lid") for y in rwalk(arm.get("pat") or {}) if isinstance(y, dict) and y.get("k") == "P.Binding"}
         rep.ob(rid, "%s/resolves-import" % g.rsplit("::", 1)[-1], bool(foreign),
@@ -858,3 +879,63 @@ def payload_file_rule(cx, rep, rid):
                        "%s takes syntax out of a `%s` record and passes it to %s together with a file / address that does not come from the same record: names inside the syntax are then resolved in the module of the place of USE, so moving the declaration into another file changes what it means" % (g, d.rsplit("::", 2)[-2] + "::" + d.rsplit("::", 1)[-1], callee),
                        "%s:%s" % (f.file, c["line"]), sample={"fn": g, "record": d, "call": callee})
     rep.floor(rid, "hand-overs of located syntax", n, 4)
+
+
+def local_type_before_import_rule(cx, rep, rid):
+    """TypeScript lets a module import a VALUE `User` and declare a TYPE `User` (the companion pattern): in type
+    position the local declaration is meant.  In a single file the constant and the type live in different tables and
+    never meet; once the constant moves to another module the name is in the import table too.  The type-side lookup
+    of a local name therefore asks the tables of local TYPE declarations (aliases, interfaces) first and the import
+    table only when none of them has the name; asked first, the import table forwards the reference to the other
+    module (spurious `cannot resolve`, or a same-named type re-exported from there).  Decided: in every function that
+    looks a name up both in a table of pure type declarations (field type ..TsTypeAliasDecl / TsInterfaceDecl) and in
+    the import table of a parsed module, each import lookup comes after the type-table lookups of the same block."""
+    F = cx.rs
+    type_tables, import_tables = set(), set()
+    for gid, a in F.adts.items():
+        if a.get("crate") != "beff_core":
+            continue
+        for v in a["variants"]:
+            for fl in v["fields"]:
+                if re.search(r"Map<std::string::String, std::rc::Rc<swc_ecma_ast::(TsTypeAliasDecl|TsInterfaceDecl)>>", fl["ty"]):
+                    type_tables.add(fl["name"])
+                if re.search(r"Map<std::string::String, std::rc::Rc<[\w:]*ImportReference>>", fl["ty"]):
+                    import_tables.add(fl["name"])
+    if not type_tables or not import_tables:
+        rep.anchor_missing(rid, "tables of local type declarations / the import table (by field type)")
+        return
+    n = 0
+    for g, t in sorted(F.hir.items()):
+        f = F.fns.get(g)
+        if f is None or f.crate == WASM:
+            continue
+        for blk in walk(t["body"]):
+            if blk["k"] != "Block":
+                continue
+            seq = []     # (kind, stmt index, node)
+            for i_, st in enumerate(blk.get("stmts", []) + ([blk["expr"]] if blk.get("expr") is not None else [])):
+                e = st.get("e") if st["k"] in ("ExprStmt", "Semi") else st
+                if e is None or e["k"] not in ("If", "Match", "LetStmt"):
+                    continue
+                head = e.get("cond") if e["k"] == "If" else (e.get("scrut") if e["k"] == "Match" else e.get("init"))
+                if head is None:
+                    continue
+                for x in walk(head):
+                    if x["k"] == "MethodCall" and x["method"] in ("get", "contains_key"):
+                        r = x["recv"]
+                        while r["k"] in ("AddrOf", "Unary"):
+                            r = r["e"]
+                        if r["k"] == "Field" and r["name"] in type_tables:
+                            seq.append(("type", i_, x))
+                        elif r["k"] == "Field" and r["name"] in import_tables:
+                            seq.append(("import", i_, x))
+            kinds = {k for k, _, _ in seq}
+            if kinds != {"type", "import"}:
+                continue
+            n += 1
+            last_type = max(i_ for k, i_, _ in seq if k == "type")
+            early = [x for k, i_, x in seq if k == "import" and i_ < last_type]
+            rep.ob(rid, "%s/local-types-before-imports" % g.rsplit("::", 1)[-1], not early,
+                   "%s asks the import table for a name before the tables of local type declarations: a module that imports a value `User` and declares a type `User` then resolves the type reference in the module the VALUE comes from - splitting the constant off into its own file changes what the type means" % g,
+                   "%s:%s" % (f.file, (early[0] if early else seq[0][2]).get("line")), sample={"fn": g, "order": [k for k, _, _ in sorted(seq, key=lambda z: z[1])]})
+    rep.floor(rid, "lookups of one name in local type tables and in the import table", n, 1)
